@@ -119,7 +119,7 @@ def gen_command(ix: Index, kind=None):
     a = kind.split()
     if kind == "node clean":
         a += [ix.node()]
-        a += opt(rng, 0.3, "--acq", ix.acq()) + opt(rng, 0.4, "--archive-ok") + opt(rng, 0.25, "--include-bad")
+        a += opt(rng, 0.3, "--acq", ix.acq()) + opt(rng, 0.15, "--acq", ix.acq(bad=0.4)) + opt(rng, 0.4, "--archive-ok") + opt(rng, 0.25, "--include-bad")
         r = rng.random()
         if r < 0.3:
             a += ["--now"]
@@ -133,7 +133,7 @@ def gen_command(ix: Index, kind=None):
         a += opt(rng, 0.2, "--target", ix.group())
     elif kind == "node verify":
         a += [ix.node()]
-        a += opt(rng, 0.3, "--acq", ix.acq())
+        a += opt(rng, 0.3, "--acq", ix.acq()) + opt(rng, 0.15, "--acq", ix.acq(bad=0.4))
         r = rng.random()
         if r < 0.3:
             a += ["--cancel"] + rng.choice([[], ["--healthy"], ["--missing"], ["--corrupt"], ["--healthy", "--missing"]])
@@ -148,9 +148,9 @@ def gen_command(ix: Index, kind=None):
             a += [ix.node(), "--cancel"]
         else:
             a += [ix.node()] + opt(rng, 0.3, "--target", ix.group()) + opt(rng, 0.15, "--target", ix.group())
-        a += opt(rng, 0.3, "--acq", ix.acq()) + opt(rng, 0.2, "--show-acqs") + opt(rng, 0.2, "--show-files")
+        a += opt(rng, 0.3, "--acq", ix.acq()) + opt(rng, 0.15, "--acq", ix.acq(bad=0.4)) + opt(rng, 0.2, "--show-acqs") + opt(rng, 0.2, "--show-files")
     elif kind == "node sync":
-        a += [ix.node(), ix.group()] + opt(rng, 0.25, "--cancel") + opt(rng, 0.3, "--acq", ix.acq())
+        a += [ix.node(), ix.group()] + opt(rng, 0.25, "--cancel") + opt(rng, 0.3, "--acq", ix.acq()) + opt(rng, 0.15, "--acq", ix.acq(bad=0.4))
         if "--cancel" not in a:
             a += opt(rng, 0.3, "--target", ix.group())
     elif kind == "file clean":
